@@ -35,7 +35,7 @@ def req_lines(kind):
         return F.lines(F.override(F.base(2, 2, 9, 4, (3, 2, 1)), {
             'Number of Segments': '3', 'Gradient 1': '71', 'Gradient 2': '33', 'Gradient 3': '95', 'Thickness 1': '1.2', 'Thickness 2': '0.9', 'Reservoir Depth': '2.7',
             'Maximum Temperature': '310', 'Surface Temperature': '9', 'Ambient Temperature': '4', 'Number of Production Wells': '4', 'Number of Injection Wells': '1',
-            'Production Well Diameter': '9.5', 'Injection Well Diameter': '6.5', 'Production Flow Rate per Well': '33', 'Injection Temperature': '61', 'Water Loss Fraction': '0.07',
+            'Production Well Diameter': '0.2413 m', 'Injection Well Diameter': '16.51 cm',     # lengths written with a unit, declared in inch (okU: feet for a depth declared in km) 'Production Flow Rate per Well': '33', 'Injection Temperature': '61', 'Water Loss Fraction': '0.07',
             'Reservoir Heat Capacity': '1111', 'Reservoir Density': '2555', 'Reservoir Thermal Conductivity': '3.3', 'Well Drilling Cost Correlation': '3',
             'Discount Rate': '0.083', 'Fixed Internal Rate': '9.1', 'Starting Heat Sale Price': '0.041', 'Ending Heat Sale Price': '0.077', 'Utilization Factor': '0.71'}))
     if kind == 'okCap2':   # two gradient segments with the maximum-temperature cap reached in the last one (depth reduced): sensitive to
